@@ -22,7 +22,9 @@ RULE = ("history spec (3-12 revisions, merges, ghost parents) built in a 'full' 
         "from 1-2 split revisions; a stacked branch (2a, and the 1.9/1.14 family) "
         "created by sprout(stacked=True), create_clone_on_transport(stacked_on=) "
         "(what push --stacked-on does) or init + set_stacked_on_url; then 1-4 "
-        "steps: commit in a lightweight checkout of the stacked branch, push "
+        "steps: commit in a lightweight checkout of the stacked branch, commit "
+        "there of a merge of a trunk revision that was added to the fallback "
+        "only, push "
         "into it, pull into it, Repository.fetch of a chosen revision - locally "
         "or with the stacked branch opened through a smart TCP server. After "
         "every step the invariant is evaluated. Non-trivial: the stacked "
@@ -67,8 +69,9 @@ def stack_case(draw, tier="quick", smart=False):
     n = draw(st.integers(1, 4))
     ncommit = 0
     for _ in range(n):
-        k = draw(st.sampled_from(["push", "pull", "fetch", "commit", "commit"]))
-        if k == "commit":
+        k = draw(st.sampled_from(["push", "pull", "fetch", "commit", "commit",
+                                  "mergecommit", "mergecommit"]))
+        if k in ("commit", "mergecommit"):
             # ops are late-bound: drawn against an empty model extension; use
             # only additions of new files under the root and modifications by
             # index, so that they apply to whatever the tip is
@@ -82,7 +85,12 @@ def stack_case(draw, tier="quick", smart=False):
                 else:
                     ops.append(["modfile", draw(st.integers(0, 5)),
                                 draw(tm.text_strategy())])
-            steps.append(["commit", ops])
+            if k == "commit":
+                steps.append(["commit", ops])
+            else:
+                # commit a merge of a trunk revision that is first added to
+                # the FALLBACK only (the trunk moved on after stacking)
+                steps.append(["mergecommit", ops, draw(st.sampled_from(ids))])
         else:
             steps.append([k, draw(st.sampled_from(ids))])
     return {"spec": spec, "fmt": fmt, "split": split, "mode": mode,
@@ -198,8 +206,25 @@ class World:
                               pre + "changes_from-parent-wrong",
                               {"rev": r, "parent": p, "model-changed": changed})
             if final:
-                cf.check_clean(repo, "C08/")
+                self.check_repo(repo)
         return local, boundary
+
+    def check_repo(self, repo):
+        """Repository.check() through the fallback must be clean. One class
+        is named separately: per-file parents recorded by a commit made IN
+        the stacked branch that are a superset of the right ones (the commit
+        builder takes per-file heads from the stacked repository's own text
+        index and so cannot see ancestry that lives in the fallback)."""
+        res = repo.check(None)
+        own = [i for i in res.inconsistent_parents
+               if cf._s(i[0]) in self.graph and cf._s(i[0]).startswith("c")
+               and set(i[3]) < set(i[2])]
+        if own and len(own) == len(res.inconsistent_parents):
+            check(False,
+                  "C08/commit-in-stacked-branch-keeps-non-head-text-parents",
+                  [[cf._s(i[0]), cf._s(i[1]), [cf._s(x) for x in i[2]],
+                    [cf._s(x) for x in i[3]]] for i in own][:5])
+        cf.check_clean(repo, "C08/")
 
     # ------------------------------------------------------------ the steps
     def step(self, st_):
@@ -221,6 +246,8 @@ class World:
                 s.repository.fetch(f.repository, revision_id=bz.enc(st_[1]))
             elif k == "commit":
                 return self.commit(st_[1])
+            elif k == "mergecommit":
+                return self.commit(st_[1], merge=st_[2])
             else:
                 raise ValueError(st_)
         finally:
@@ -229,13 +256,22 @@ class World:
         self.labels.add(k)
         return None
 
-    def commit(self, ops):
+    def commit(self, ops, merge=None):
         from breezy import branch as _b
         from breezy import errors
         lb = _b.Branch.open(self.p("stacked"))
         tip = cf._s(lb.last_revision())
         if tip == "null:":
             return None
+        if merge is not None:
+            if merge in gm.ancestry(self.graph, tip):
+                merge = None        # already merged: an ordinary commit
+            else:
+                base = _b.Branch.open(self.p("base"))
+                full = _b.Branch.open(self.p("full"))
+                base.repository.fetch(full.repository,
+                                      revision_id=bz.enc(merge))
+                del base, full
         self.ncommit += 1
         rid = "c%d" % self.ncommit
         m = tm.clone(self.models[tip])
@@ -258,6 +294,8 @@ class World:
                         real.append(["modify", f, op[2]])
                 bz.apply_ops_wt(wt, m, real)
                 bz.age_files(co)
+                if merge is not None:
+                    wt.set_parent_ids([bz.enc(tip), bz.enc(merge)])
                 try:
                     wt.commit("commit %s" % rid, rev_id=bz.enc(rid),
                               timestamp=bz.T0 + 5000 + self.ncommit, timezone=0,
@@ -282,9 +320,14 @@ class World:
             return "refused"
         check(refused is None, "C08/commit-to-stacked-2a-branch-refused",
               refused)
-        self.graph[rid] = (tip,)
+        self.graph[rid] = (tip,) if merge is None else (tip, merge)
         self.models[rid] = m
-        self.labels.add("commit")
+        self.labels.add("commit" if merge is None else "mergecommit")
+        got = tuple(cf._s(p) for p in _b.Branch.open(
+            self.p("stacked")).repository.get_revision(bz.enc(rid)).parent_ids)
+        if got != self.graph[rid]:
+            raise RuntimeError("harness: %s committed with parents %r, model "
+                               "%r" % (rid, got, self.graph[rid]))
         return None
 
 
